@@ -57,8 +57,14 @@ class Meter(object):
                 raise BudgetExceeded()
 
 
+_IN_DECODE = False
+
+
 def _alarm(signum, frame):
-    raise BudgetExceeded()
+    # the watchdog counts the CPU time of this process (ITIMER_VIRTUAL), so a loaded machine cannot trip it; it only
+    # interrupts the decoder itself, never the bookkeeping around it
+    if _IN_DECODE:
+        raise BudgetExceeded()
 
 
 WATCHDOG_S = 10.0
@@ -177,11 +183,16 @@ def probe(data, fn=None, mem=False):
     peak = 0
     if mem:
         tracemalloc.start()
-    signal.setitimer(signal.ITIMER_REAL, WATCHDOG_S)  # backstop for loops that make no calls at all
+    global _IN_DECODE
+    signal.setitimer(signal.ITIMER_VIRTUAL, WATCHDOG_S)  # backstop for loops that make no calls at all (CPU seconds)
     sys.setprofile(meter)
     try:
         try:
-            v = fn(data)
+            _IN_DECODE = True
+            try:
+                v = fn(data)
+            finally:
+                _IN_DECODE = False
             out = ("value", v)
         except BudgetExceeded:
             out = ("aborted", None)
@@ -193,12 +204,12 @@ def probe(data, fn=None, mem=False):
             out = ("base-exception", e)
     finally:
         sys.setprofile(None)
-        signal.setitimer(signal.ITIMER_REAL, 0)
+        signal.setitimer(signal.ITIMER_VIRTUAL, 0)
         if mem:
             peak = tracemalloc.get_traced_memory()[1]
             tracemalloc.stop()
     if meter.n > limit or out[0] == "aborted":
-        return "over-budget", ("work-bound", "decoder executed more than %d*len+%d calls (or ran past the %.0f s watchdog)" % (CALLS_PER_BYTE, CALLS_BASE, WATCHDOG_S),
+        return "over-budget", ("work-bound", "decoder executed more than %d*len+%d calls (or ran past the %.0f CPU-second watchdog)" % (CALLS_PER_BYTE, CALLS_BASE, WATCHDOG_S),
                                "aborted after %d calls for %d input bytes (limit %d)" % (meter.n, len(data), limit)), meter.n
     if mem and peak > MEM_PER_BYTE * len(data) + MEM_BASE:
         return "over-memory", ("memory-bound", "decoder allocated more than %d*len+%d bytes" % (MEM_PER_BYTE, MEM_BASE),
@@ -385,7 +396,7 @@ def work_init(tier):
     _HS = handshake_corpus()
     _CRAFT = crafted()
     sys.setrecursionlimit(1000)
-    signal.signal(signal.SIGALRM, _alarm)
+    signal.signal(signal.SIGVTALRM, _alarm)
 
 
 def fold(acc, cls, bad, wit):
